@@ -579,5 +579,16 @@ func c11(r *hx.Run) {
 	runOrdered(r, len(samples), func(i int) vCase { return samples[i] })
 	// honest worlds stay accepted whatever was verified through the same options value before, at whatever level
 	cvPairHistories(r, 0x2211, "C11", 1)
+	// … and whatever else is being verified at the same time
+	{
+		var ws []*world.World
+		for i := 0; i < 6; i++ {
+			rng := caseRng(r, 9, i)
+			s, _ := c11Spec(rng, i%3 >= 1, i%3 == 2)
+			s.Fault = fmt.Sprintf("honest-%d", i)
+			ws = append(ws, world.Build(s))
+		}
+		cvConcurrent(r, "C11", ws, map[bool]time.Duration{true: 8 * time.Second, false: 2 * time.Second}[r.Tier == "thorough"])
+	}
 	notes.flush(r, "c11_")
 }
